@@ -349,13 +349,47 @@ pub fn some_alternative_claims_always(asts: &[Seq], ancestor: &str) -> bool {
     false
 }
 
+fn contains_tree(seq: &[Node]) -> bool {
+    seq.iter().any(|n| match &n.kind {
+        Kind::Tree { .. } => true,
+        Kind::Alt(bs) => bs.iter().any(|b| contains_tree(b)),
+        Kind::Rep { body, .. } => contains_tree(body),
+        _ => false,
+    })
+}
+
+fn contains_open_crossing_repetition(seq: &[Node]) -> bool {
+    seq.iter().any(|n| match &n.kind {
+        Kind::Alt(bs) => bs.iter().any(|b| contains_open_crossing_repetition(b)),
+        Kind::Rep { body, bounds } => {
+            (bounds.values().map_or(false, |(_, hi)| hi.is_none()) && can_cross_components(body)) || contains_open_crossing_repetition(body)
+        },
+        _ => false,
+    })
+}
+
+fn tail_has_unbounded_depth_source(seq: &[Node]) -> bool {
+    let mut tail: Vec<&Node> = vec![];
+    for n in seq.iter().rev() {
+        match &n.kind {
+            Kind::Flag(_) => continue,
+            Kind::Alt(_) | Kind::Rep { .. } | Kind::Sep | Kind::Zom(_) | Kind::Tree { .. } => tail.push(n),
+            _ => break,
+        }
+    }
+    tail.iter().any(|n| contains_tree(std::slice::from_ref(*n)) || contains_open_crossing_repetition(std::slice::from_ref(*n)))
+}
+
 /// Known-finding classifier for C09/C03 (DESIGN §6.1): identifies the recorded defect classes of
 /// the exhaustiveness analysis by the witness and by the structure of the expression.
 pub fn c09_class(asts: &[Seq], ancestor: &str) -> Option<String> {
     if ancestor.is_empty() || ancestor == "/" {
         return Some("exhaustive-at-empty-or-root-path".into());
     }
-    if asts.iter().any(|a| tail_has_branch(a)) {
+    // the recorded mechanisms all need a source of unbounded depth in the tail: a tree wildcard
+    // (at the top level of the tail or inside its branches) or an open-ended repetition whose
+    // body crosses a component boundary
+    if asts.iter().any(|a| tail_has_branch(a) && tail_has_unbounded_depth_source(a)) {
         return Some("exhaustive-with-branch-in-tail".into());
     }
     None
